@@ -161,6 +161,19 @@ func (fc *fnCtx) adoptFor(fr *frame, li *loopInfo) *LoopSpec {
 	if ls, ok := fc.adoptedAt[key]; ok {
 		return ls
 	}
+	if n, ok := fc.siteLoop[f.site]; ok {
+		// numbering fixed by source position (renumberLoops)
+		if ls := fc.orphanLoops[n]; ls != nil {
+			if fc.adoptedAt == nil {
+				fc.adoptedAt = map[string]*LoopSpec{}
+			}
+			fc.adoptedAt[key] = ls
+			fc.adoptedBy[li.header] = ls
+			fc.adoptedN[ls.N] = li.header
+			fc.e.warnings[fmt.Sprintf("%s: loop %d of the contract is attached to the loop of the helper %s called at %s (executed in place)", fc.key, ls.N, fr.key, f.site)] = true
+			return ls
+		}
+	}
 	// rank of this call site among the calls of the same helper in the top function
 	var sites []string
 	for _, b := range fc.top.fn.Blocks {
@@ -449,12 +462,85 @@ func (fc *fnCtx) newFrame(fn *ssa.Function, parent *frame) *frame {
 			}
 		}
 	}
+	if parent == nil && fr.spec != nil && len(fr.loops) >= 1 && len(fr.spec.Loops) > len(fr.loops) {
+		fc.renumberLoops(fr)
+	}
 	for _, li := range fr.loops {
 		if fr.spec != nil {
 			li.spec = fr.spec.Loops[li.ordinal]
 		}
 	}
 	return fr
+}
+
+// renumberLoops: the contract has more loop clauses than the function has loops of its own, and the function keeps
+// some of them: part of its loops were extracted into contract-less helpers. The clauses were numbered in source
+// order when all loops were in the body; the same order is recovered by merging the function's own loops with the
+// call sites of helpers that contain exactly one loop, by source position. Applies only when the counts add up.
+func (fc *fnCtx) renumberLoops(fr *frame) {
+	type item struct {
+		pos    int
+		header *ssa.BasicBlock // own loop
+		site   string          // helper call site
+	}
+	var items []item
+	for h, li := range fr.loops {
+		best := int(^uint(0) >> 1)
+		for blk := range li.body {
+			for _, ins := range blk.Instrs {
+				if _, isPhi := ins.(*ssa.Phi); isPhi {
+					continue
+				}
+				if p := ins.Pos(); p.IsValid() && int(p) < best {
+					best = int(p)
+				}
+			}
+		}
+		items = append(items, item{pos: best, header: h})
+	}
+	for _, b := range fr.fn.Blocks {
+		for _, ins := range b.Instrs {
+			c, ok := ins.(*ssa.Call)
+			if !ok {
+				continue
+			}
+			callee := c.Common().StaticCallee()
+			if callee == nil || !fc.e.inRepo(callee) || fc.e.contracts.Funcs[fc.e.keyOf(callee)] != nil {
+				continue
+			}
+			o := originOf(callee)
+			if len(o.Blocks) == 0 || len(findLoops(o)) != 1 {
+				continue
+			}
+			for _, li := range fr.loops {
+				if li.body[b] {
+					return // a helper with a loop called inside a loop: not the simple extraction pattern
+				}
+			}
+			items = append(items, item{pos: int(c.Pos()), site: fmt.Sprintf("call%d", fr.callOrd[c])})
+		}
+	}
+	if len(items) != len(fr.spec.Loops) {
+		return
+	}
+	sort.Slice(items, func(i, j int) bool { return items[i].pos < items[j].pos })
+	changed := false
+	for i, it := range items {
+		if it.header != nil {
+			if fr.loops[it.header].ordinal != i+1 {
+				changed = true
+			}
+			fr.loops[it.header].ordinal = i + 1
+		} else {
+			if fc.siteLoop == nil {
+				fc.siteLoop = map[string]int{}
+			}
+			fc.siteLoop[it.site] = i + 1
+		}
+	}
+	if changed {
+		fc.e.warnings[fmt.Sprintf("%s: loops renumbered by source position together with the call sites of loop-bearing helpers (part of the loops was extracted)", fr.key)] = true
+	}
 }
 
 // ---------------------------------------------------------------------------
